@@ -334,7 +334,7 @@ func c14R1(e *Engine) {
 			e.ob("R1", e.fname(fn)+":no-reference-components", e.pos(fn.Pos()), Pass, false, "conversion stores no reference-typed component directly")
 		}
 	}
-	e.minCount("R1", 40)
+	e.minCount("R1", 25)
 }
 
 func c14R3(e *Engine) {
